@@ -45,6 +45,8 @@ def header_defects(headers: Any) -> Set[str]:
             continue
         if n[:1] == b":":
             out.add("malformed")
+        elif bytes(n).strip()[:1] == b":":
+            out.add("ctl")  # becomes a pseudo-header once surrounding blanks are stripped: must not reach the wire as one
         if any(c in CTL for c in n) or any(c in CTL for c in v) or b" " in bytes(n).strip():
             out.add("ctl")
     return out
@@ -119,7 +121,12 @@ class HttpRef(HttpSendModel):
                 return False
             if limbo:
                 return None
-            return self.state == "request"
+            if self.state != "request":
+                return False
+            links = msg.get("links", [])
+            if any(not isinstance(l, (bytes, bytearray)) or any(c in CTL for c in l) for l in links):
+                return None  # a link is a header value: CR/LF/NUL must not reach the wire, raising is fine
+            return True
         return False
 
     # -- transitions
